@@ -97,7 +97,7 @@ def run(ctx):
         cases.append((tree, sg.render_spec(rng, tree).encode()))
     texts = [c[1] for c in cases]
     impl, model = run_specs(ctx, texts)
-    ncorr = correspondence(ctx, texts, impl, model)
+    ncorr = correspondence(ctx, texts, impl, model, fields=("L",))      # the part of an accepted result this property is about
     known = {f["id"]: f for f in known_for("C12")}
     nacc, nlev = 0, 0
     distinct = set()
